@@ -158,7 +158,10 @@ def _items():
         'pub trait Sat: Sized { fn sat(self) -> Self; fn ok(&self) -> bool; }\n'
         'impl Sat for i32 { fn sat(self) -> i32 { if self > 50 { 50 } else { self } } fn ok(&self) -> bool { *self != 7 } }\n'
         'pub fn san_gen<T: Sat>(x: T) -> T { x.sat() }\npub fn pred_gen<T: Sat>(x: &T) -> bool { x.ok() }\n'
-        'pub fn vfn_gen<T: Sat>(x: &T) -> Result<(), MyErr> { if x.ok() { Ok(()) } else { Err(MyErr::Worse) } }\n',
+        'pub fn vfn_gen<T: Sat>(x: &T) -> Result<(), MyErr> { if x.ok() { Ok(()) } else { Err(MyErr::Worse) } }\n'
+        # a default that depends on T: valid for i32 (5), invalid for u8 (7 is rejected by ok())
+        'pub trait Dflt: Sat { fn dflt() -> Self; }\nimpl Dflt for i32 { fn dflt() -> i32 { 5 } }\n'
+        'impl Sat for u8 { fn sat(self) -> u8 { self } fn ok(&self) -> bool { *self != 7 } }\nimpl Dflt for u8 { fn dflt() -> u8 { 7 } }\n',
         '')
     for nm, ty in (('pair', '(i32, u8)'), ('opt', 'Option<i64>')):
         NM = nm.upper()
